@@ -889,6 +889,12 @@ where
                 //
                 // If the ID is at its maximum generation, we are forced to leak the slot.
                 if let Some(new_id) = old_id.next_generation() {
+                    #[cfg(salsa_rs_salsa_verif)]
+                    crate::verif_conc::emit_locked(crate::verif_conc::Ev::InternReuse {
+                        index: old_id.index(),
+                        generation: old_id.generation(),
+                        new_generation: new_id.generation(),
+                    });
                     return Some(ReusableSlot {
                         entry,
                         old_id,
